@@ -53,8 +53,8 @@ class Fixed(Lat):
   """{ k * 2^-f | lo <= k <= hi }   (f, lo, hi: z3 Int terms)."""
   kind = "fixed"
 
-  def __init__(self, f, lo, hi, n=None):
-    self.f, self.lo, self.hi, self.n = f, lo, hi, n
+  def __init__(self, f, lo, hi, n=None, s=None):
+    self.f, self.lo, self.hi, self.n, self.s = f, lo, hi, n, s
 
 
 class Po2(Lat):
@@ -84,7 +84,7 @@ def fixed_lattice(bits, int_bits, signed):
   f = n - i
   lo = -s * I.IPOW2(n)
   hi = I.IPOW2(n) - 1
-  return Fixed(f, lo, hi, n)
+  return Fixed(f, lo, hi, n, s)
 
 
 def po2_exponent_interval(bits, signed, need_exponent_sign_bit):
@@ -132,14 +132,18 @@ def fits(mant, ex, lat):
     return z3.BoolVal(True), []
   if lat.kind == "fixed":
     sh = ex + lat.f
-    # the code of the value in the target format is mant * 2^sh, an integer
-    # because sh >= 0 (witness argument); its range is checked over the reals.
-    code = z3.ToReal(mant) * I.POW2(sh)
+    # The code of the value in the target format is mant * 2^sh, an integer because sh >= 0
+    # (witness argument).  Its range  lo <= mant * 2^sh <= hi  with lo = -s*2^n, hi = 2^n - 1
+    # is stated after multiplying through by 2^-sh > 0 (2^a * 2^b = 2^(a+b)), which keeps the
+    # clause linear in mant:   -s * 2^(n-sh) <= mant <= 2^(n-sh) - 2^(-sh).
+    m = z3.ToReal(mant)
     g = z3.Or(mant == 0,
-              z3.And(sh >= 0, z3.ToReal(lat.lo) <= code, code <= z3.ToReal(lat.hi)))
+              z3.And(sh >= 0,
+                     -z3.ToReal(lat.s) * I.POW2(lat.n - sh) <= m,
+                     m <= I.POW2(lat.n - sh) - I.POW2(-sh)))
     zero_ok = z3.And(lat.lo <= 0, 0 <= lat.hi)
     g = z3.And(z3.Implies(mant == 0, zero_ok), g)
-    return g, [sh, lat.n] if lat.n is not None else [sh]
+    return g, [sh, lat.n, lat.n - sh, -sh]
   if lat.kind == "po2":
     g = z3.And(z3.Or(mant == 1, z3.And(lat.signed, mant == -1)),
                lat.emin <= ex, ex <= lat.emax)
